@@ -37,7 +37,7 @@ class Site:
         self.cse_off = cse_off        # allowed_cache_results without CSE
 
     def to_json(self):
-        return {k: v for k, v in self.__dict__.items() if v not in (None, False)}
+        return {k: v for k, v in self.__dict__.items() if v is not None and not (v is False and k != "prov")}
 
 
 class Defn:
